@@ -34,6 +34,9 @@ use zipora::entropy::parallel::{
 use zipora::entropy::simd_huffman::{HuffmanSimdTier, SimdHuffmanConfig, SimdHuffmanEncoder};
 
 /// Imports of this half (the merged header adds the other half's imports and dispatches on the op number).
+#[path = "c01_b.rs"]
+mod b;
+
 pub const IMPORTS_A: &str = "From ZV.C01 Require Import Model ModelCtx.\n";
 pub const HEADER_A: &str = r#"From ZV.Common Require Import Base Run.
 From ZV.C01 Require Import Model ModelCtx.
@@ -898,20 +901,40 @@ pub fn run_cells(sum: &mut Summary, shards: &mut CoqShards, rng: &mut Rng, args:
     run_jobs(jobs, sum, shards, rng, th, &mut used);
 }
 
+/// Header of the generated Coq case files: both halves' models, cases dispatched on the op number
+/// (Huffman half: ops below 100, `run_case_a` in ModelCtx.v; rANS / FSE / LZ half: `run_case_b` in ModelFse.v).
+fn merged_header() -> String {
+    format!("From ZV.Common Require Import Base Run.\n{}{}Open Scope N_scope.\nDefinition case_t : Type := N * list N * list N * list N.\nDefinition run_case (op : N) (a b : list N) : list N := if op <? 100 then run_case_a op a b else run_case_b op a b.\nDefinition ok (c : case_t) : bool :=\n  let '(op, a, b, expect) := c in eqb_ln (run_case op a b) expect.\n", IMPORTS_A, b::HEADER_B)
+}
+
+/// The two halves keep separate shard sets (the rANS / FSE cases are ~10x more expensive to evaluate in Coq, so their
+/// shards are smaller); the second set is written into a sub-directory.
+fn write_all(sum: &mut Summary, args: &Args, shards: &CoqShards, shards_b: &CoqShards) {
+    sum.dist_max("coq_cases", (shards.len() + shards_b.len()) as u64);
+    let mut sh = shards.write(&args.out);
+    let bdir = format!("{}/b", args.out);
+    let _ = std::fs::create_dir_all(&bdir);
+    sh.extend(shards_b.write(&bdir));
+    sum.write(&args.out, sh);
+}
+
 pub fn run(args: &Args) {
     quiet_panics();
-    let mut sum = Summary::new("C01", RULE);
-    let mut shards = CoqShards::new(HEADER_A, 150);
+    let rule = format!("{} || {}", RULE, b::RULE_B);
+    let mut sum = Summary::new("C01", &rule);
+    let hdr = merged_header();
+    let mut shards = CoqShards::new(&hdr, 150);
+    let mut shards_b = CoqShards::new(&hdr, 40);
     let mut rng = Rng::new(args.seed);
     if let Some(f) = &args.replay {
         let txt = std::fs::read_to_string(f).expect("replay file");
         let v: Value = serde_json::from_str(&txt).expect("replay json");
         let c = if v.get("case").is_some() { v["case"].clone() } else { v };
         let mut cx = Cx::new(args.thorough, 100, 4);
-        run_one(&mut cx, &c); // the other half: `|| b::run_one(...)`
+        let mine = run_one(&mut cx, &c);
         cx.flush(&mut sum, &mut shards, &mut HashMap::new());
-        let sh = shards.write(&args.out);
-        sum.write(&args.out, sh);
+        if !mine { b::replay_case(&mut sum, &mut shards_b, &c); }
+        write_all(&mut sum, args, &shards, &shards_b);
         return;
     }
     if let Ok(rd) = std::fs::read_dir("corpus/C01") {
@@ -919,6 +942,7 @@ pub fn run(args: &Args) {
         files.sort();
         let mut cx = Cx::new(args.thorough, 100, 4);
         for p in files {
+            if p.file_name().and_then(|n| n.to_str()).map(|n| n.starts_with("b_")).unwrap_or(false) { continue; } // the other half runs its own
             if let Ok(txt) = std::fs::read_to_string(&p) {
                 if let Ok(v) = serde_json::from_str::<Value>(&txt) {
                     let c = if v.get("case").is_some() { v["case"].clone() } else { v };
@@ -929,8 +953,7 @@ pub fn run(args: &Args) {
         cx.flush(&mut sum, &mut shards, &mut HashMap::new());
     }
     run_cells(&mut sum, &mut shards, &mut rng, args);
-    // the other half: b::run_cells(&mut sum, &mut shards, &mut rng, args);
-    sum.dist_max("coq_cases", shards.len() as u64);
-    let sh = shards.write(&args.out);
-    sum.write(&args.out, sh);
+    let mut rng_b = Rng::new(args.seed ^ 0x5eed_b);
+    b::run_cells(&mut sum, &mut shards_b, &mut rng_b, args);
+    write_all(&mut sum, args, &shards, &shards_b);
 }
